@@ -869,6 +869,23 @@ fn oracle(o: &Obs) -> Option<(String, String)> {
                 },
             }
         }
+        // liveness side of "complete or error": a complete, well-formed response whose body the
+        // caller asked for in full must be delivered, not refused (an implementation that always
+        // errors would satisfy the first half vacuously)
+        if let (RefRead::Msg(m), Mode::Full) = (&r, op.mode) {
+            let complete = m.body.is_some() && (m.framing != Framing::UntilClose || op.script.close);
+            if complete && !m.upgrade_ws_non101 {
+                match &op.outcome {
+                    Outcome::BodyErr(_, e) | Outcome::SendErr(e) => {
+                        return Some((
+                            "error-on-complete-well-formed-response".into(),
+                            format!("request {}: {:?} body {} was sent completely but the client reported {}", op.id, m.framing, hex(m.body.as_ref().unwrap()), e),
+                        ))
+                    }
+                    _ => {}
+                }
+            }
+        }
         refs.insert(op.id, (r, op));
     }
     // (2) a socket carries a further request only after a complete exchange on a persistent connection
@@ -1166,6 +1183,7 @@ fn gen(ctx: &Ctx) -> Vec<String> {
         (Resp { v11: true, status: 200, fr: Fr::Len(b"hello".to_vec()), conn: None, extra: vec![] }, 'g'),
         (Resp { v11: true, status: 200, fr: Fr::Chunked(vec![b"abc".to_vec(), b"de".to_vec(), b"0123456789abcdefX".to_vec()], true), conn: None, extra: vec![] }, 'g'),
         (Resp { v11: true, status: 200, fr: Fr::Chunked(vec![b"wxyz".to_vec()], false), conn: Some("close"), extra: vec![] }, 'g'),
+        (Resp { v11: true, status: 200, fr: Fr::Chunked(vec![b"0123456789".to_vec(), b"abcdefghijklmno".to_vec(), b"ABCDEFGHIJKL".to_vec(), b"-".to_vec()], true), conn: None, extra: vec![] }, 'g'),
         (Resp { v11: false, status: 200, fr: Fr::Close(b"hello".to_vec()), conn: None, extra: vec![] }, 'g'),
         (Resp { v11: false, status: 200, fr: Fr::Len(b"hey".to_vec()), conn: Some("keep-alive"), extra: vec![] }, 'g'),
         (Resp { v11: true, status: 204, fr: Fr::None, conn: None, extra: vec!["x-a: b"] }, 'g'),
